@@ -141,6 +141,7 @@ class Expansion:
                 self.by_id.setdefault(r['id'], []).append(i)
         self._uid = 0
         self._busy = set()
+        self.origin = {}      # uid of a copied temporary occurrence -> uid of the written occurrence it stems from
 
     def fresh(self):
         self._uid += 1
@@ -161,7 +162,7 @@ class Expansion:
             out = []
             for cs in (r['cons'] or [[]]):
                 partial = [([], [], {})]        # items, inherited cons, own temp occurrences {ident: [uids]}
-                for it in r['items']:
+                for pos, it in enumerate(r['items']):
                     if it[0] == 'lit':
                         for p in partial:
                             p[0].append(('lit', lit_bytes(it[1])))
@@ -169,6 +170,7 @@ class Expansion:
                         for p in partial:
                             if it[1].startswith('_'):
                                 u = self.fresh()
+                                self.origin[u] = ('written', i, pos)
                                 p[2].setdefault(it[1], []).append(u)
                                 p[0].append(('t', u))
                             else:
@@ -198,6 +200,7 @@ class Expansion:
         for it in items:
             if it[0] == 't':
                 m[it[1]] = self.fresh()
+                self.origin[m[it[1]]] = self.origin.get(it[1], it[1])
         items2 = [('t', m[it[1]]) if it[0] == 't' else it for it in items]
         cons2 = [((('t', frozenset(m[u] for u in tg[1])) if tg[0] == 't' else tg), opts) for tg, opts in cons]
         return items2, cons2
@@ -224,14 +227,17 @@ def cons_hold(cons, target_pred, comp, env, fns) -> bool:
     return True
 
 
-def match_chain(chain, name, env0=None, fns=REF_FNS, skip_cons_on_bound=False):
-    """-> None | (env, named patterns of the chain).  `skip_cons_on_bound` is the DEFECT MODEL used only to label a
-    violation (constraints of a pattern that already has a value from env0 are ignored)."""
+def match_chain(chain, name, env0=None, fns=REF_FNS, skip_cons_on_bound=False, lost_repeat=None):
+    """-> None | (env, named patterns of the chain).  Two DEFECT MODELS exist only to LABEL a violation with a specific
+    key: `skip_cons_on_bound` (constraints of a pattern that already has a value from env0 are ignored) and
+    `lost_repeat` (= Expansion.origin: when the same written temporary occurrence is instantiated several times in one
+    alternative - the same rule referenced twice - only the first copy keeps its constraints)."""
     items, cons = chain
     if len(items) != len(name):
         return None
     env = dict(env0 or {})
     seen = set()
+    seen_origin = set()
     for it, comp in zip(items, name):
         if it[0] == 'lit':
             if comp != it[1]:
@@ -248,6 +254,15 @@ def match_chain(chain, name, env0=None, fns=REF_FNS, skip_cons_on_bound=False):
             env[p] = comp
         else:
             u = it[1]
+            if lost_repeat is not None:
+                o = lost_repeat.get(u, u)
+                if o in seen_origin:
+                    continue
+                seen_origin.add(o)
+                if not cons_hold(cons, lambda tg: tg[0] == 't' and any(lost_repeat.get(x, x) == o for x in tg[1]),
+                                 comp, env, fns):
+                    return None
+                continue
             if not cons_hold(cons, lambda tg: tg[0] == 't' and u in tg[1], comp, env, fns):
                 return None
     return env, seen
@@ -295,17 +310,18 @@ class RefModel:
         self.fns = fns
         ex = Expansion(schema)
         self.def_chains = [ex.def_chains(i) for i in range(len(schema['rules']))]
+        self.origin = ex.origin
         self.rule_chains = {}
         for i, r in enumerate(schema['rules']):
             if not is_temp(r['id']):
                 self.rule_chains.setdefault(r['id'], []).extend(self.def_chains[i])
         self.max_len = max([len(ch[0]) for chs in self.def_chains for ch in chs] or [0])
 
-    def match(self, name):
+    def match(self, name, lost_repeat=False):
         out = set()
         for r, chs in zip(self.schema['rules'], self.def_chains):
             for ch in chs:
-                m = match_chain(ch, name, None, self.fns)
+                m = match_chain(ch, name, None, self.fns, lost_repeat=self.origin if lost_repeat else None)
                 if m is not None:
                     out.add((r['id'], frozenset((p, m[0][p]) for p in m[1])))
         return out
@@ -490,26 +506,81 @@ def gen_schema(rng: random.Random, max_rules=6, signing=False, fns=True, foreign
             named_of[rid] = named_of.get(rid, set()) | own_named
             len_of[rid] = max(len_of.get(rid, 0), total)
     schema = {'rules': rules, 'lits': lits}
+    if foreign_pats:
+        fix_dangling_patterns(rng, schema, lits)
     if signing:
         add_signing(rng, schema)
     return schema
 
 
-def add_signing(rng, schema):
+def coarse_pattern(chain):
+    """the NAME PATTERN of an alternative, constraints ignored, temporary patterns not distinguished"""
+    return tuple(('l', it[1]) if it[0] == 'lit' else (('n', it[1]) if it[0] == 'n' else ('t',)) for it in chain[0])
+
+
+def own_signer_cycle(schema) -> bool:
+    """is some name pattern (directly or transitively) its own signer?  Graph over coarse name patterns: P -> Q when a
+    definition with an alternative of pattern P lists a rule that has an alternative of pattern Q as signer.
+    (Rules with equal name patterns share one node of the compiled tree, so this is the node-level signing graph or
+    a coarsening of it: acyclic here => acyclic there.)"""
+    ex = Expansion(schema)
+    chains = [ex.def_chains(i) for i in range(len(schema['rules']))]
+    pats_of_rule = {}
+    for r, chs in zip(schema['rules'], chains):
+        if not is_temp(r['id']):
+            pats_of_rule.setdefault(r['id'], set()).update(coarse_pattern(c) for c in chs)
+    g = {}
+    for r, chs in zip(schema['rules'], chains):
+        for c in chs:
+            p = coarse_pattern(c)
+            for s in r['signers']:
+                g.setdefault(p, set()).update(pats_of_rule.get(s, set()))
+    return has_cycle(g)
+
+
+def has_cycle(g) -> bool:
+    state = {}
+
+    def visit(u):
+        state[u] = 1
+        for v in g.get(u, ()):
+            st = state.get(v, 0)
+            if st == 1 or (st == 0 and visit(v)):
+                return True
+        state[u] = 2
+        return False
+    return any(state.get(u, 0) == 0 and visit(u) for u in list(g))
+
+
+def rule_sign_cycle(schema) -> bool:
+    g = {}
+    for r in schema['rules']:
+        g.setdefault(r['id'], set()).update(r['signers'])
+    return has_cycle(g)
+
+
+def add_signing(rng, schema, tries=6):
     """acyclic signing relation over rule ids: order the non-temporary ids randomly, a rule may be signed only by
-    ids later in that order (all definitions of an id are at the same place, so no cycle at rule level)."""
+    ids later in that order (all definitions of an id are at the same place, so no cycle at rule level); re-drawn
+    until no name pattern is its own signer (rules with identical name patterns are one node of the model)."""
     ids = []
     for r in schema['rules']:
         if not is_temp(r['id']) and r['id'] not in ids:
             ids.append(r['id'])
-    rng.shuffle(ids)
-    pos = {i: k for k, i in enumerate(ids)}
+    for _try in range(tries):
+        rng.shuffle(ids)
+        pos = {i: k for k, i in enumerate(ids)}
+        for r in schema['rules']:
+            r['signers'] = []
+            p = pos.get(r['id'], -1)         # temporary rules may be signed by anything
+            cands = [i for i in ids if pos[i] > p]
+            if cands and rng.random() < 0.7:
+                k = rng.choice([1, 1, 2])
+                r['signers'] = sorted(set(rng.choice(cands) for _ in range(k)))
+        if not own_signer_cycle(schema):
+            return
     for r in schema['rules']:
-        p = pos.get(r['id'], -1)         # temporary rules may be signed by anything
-        cands = [i for i in ids if pos[i] > p]
-        if cands and rng.random() < 0.7:
-            k = rng.choice([1, 1, 2])
-            r['signers'] = sorted(set(rng.choice(cands) for _ in range(k)))
+        r['signers'] = []
 
 
 def alphabet(schema, extra=('zz',), cap=5):
@@ -623,3 +694,219 @@ def run_bounded(fn, budget=100000):
         return 'exc', e
     except Exception as e:      # noqa
         return 'exc', e
+
+
+# ---------------------------------------------------------------------------------------------------------------
+# signing-centred generator (C12, C13 positive cases)
+# ---------------------------------------------------------------------------------------------------------------
+
+def patterns_in_names(schema):
+    s = set()
+    for r in schema['rules']:
+        for it in r['items']:
+            if it[0] == 'pat' and not it[1].startswith('_'):
+                s.add(it[1])
+    return s
+
+
+def fix_dangling_patterns(rng, schema, lits):
+    """an option / argument may only mention a named pattern that occurs in some name pattern of the schema"""
+    present = patterns_in_names(schema)
+    for r in schema['rules']:
+        for cs in r['cons']:
+            for term in cs:
+                for k, o in enumerate(term[1]):
+                    if o[0] == 'pat' and o[1] not in present:
+                        term[1][k] = ['lit', rng.choice(lits)]
+                    elif o[0] == 'fn':
+                        for j, a in enumerate(o[2]):
+                            if a[0] == 'pat' and a[1] not in present:
+                                o[2][j] = ['lit', rng.choice(lits)]
+
+
+def gen_sign_schema(rng: random.Random):
+    """packet rule(s) and 1..3 levels of key rules; shared named patterns x, y between packet and key rules,
+    constraints on shared patterns, options referring to patterns bound by the packet, signer alternatives,
+    redefinitions with different signers, an optional referenced suffix rule."""
+    lits = list(rng.choice([['a', 'b'], ['a', 'b', 'k'], ['a', 'k']]))
+    nrules = rng.randint(2, 4)
+    ids = ['#p', '#k1', '#k2', '#k3'][:nrules]
+    rules = []
+    suffix = None
+    if rng.random() < 0.3:
+        rules.append({'id': '#S', 'items': [['lit', rng.choice(lits)], ['pat', '_']][:rng.choice([1, 2])],
+                      'cons': [], 'signers': []})
+        suffix = '#S'
+    for j, rid in enumerate(ids):
+        for _d in range(2 if rng.random() < 0.25 else 1):
+            items = []
+            for _t in range(rng.choice([1, 2, 2, 3])):
+                q = rng.random()
+                if q < 0.4:
+                    items.append(['lit', rng.choice(lits)])
+                elif q < 0.85:
+                    items.append(['pat', rng.choice(['x', 'y'])])
+                else:
+                    items.append(['pat', '_'])
+            if suffix and rng.random() < 0.3 and len(items) < 3:
+                items.append(['ref', suffix])
+            targets = sorted({it[1] for it in items if it[0] == 'pat'})
+            cons = []
+            if targets and rng.random() < 0.6:
+                for _s in range(rng.choice([1, 1, 1, 2])):
+                    cs = []
+                    for _t in range(rng.choice([1, 1, 2])):
+                        opts = []
+                        for _o in range(rng.choice([1, 1, 2])):
+                            q = rng.random()
+                            if q < 0.55:
+                                opts.append(['lit', rng.choice(lits)])
+                            elif q < 0.85:
+                                opts.append(['pat', rng.choice(['x', 'y'])])
+                            else:
+                                opts.append(['fn', '$eq', [rng.choice([['pat', rng.choice(['x', 'y'])],
+                                                                       ['lit', rng.choice(lits)]])]])
+                        cs.append([rng.choice(targets), opts])
+                    cons.append(cs)
+            signers = []
+            later = ids[j + 1:]
+            if later and rng.random() < 0.85:
+                signers = sorted(set(rng.choice(later) for _ in range(rng.choice([1, 1, 2]))))
+            rules.append({'id': rid, 'items': items, 'cons': cons, 'signers': signers})
+    if rng.random() < 0.5:
+        rng.shuffle(rules)
+    schema = {'rules': rules, 'lits': lits}
+    fix_dangling_patterns(rng, schema, lits)
+    for _try in range(8):
+        if not own_signer_cycle(schema):
+            break
+        cand = [r for r in schema['rules'] if r['signers']]
+        rng.choice(cand)['signers'] = []
+    return schema
+
+
+def uses_foreign_pattern(schema) -> bool:
+    """does some definition mention (as option/argument) a named pattern that does not occur in its own expanded
+    name?  (such a pattern has to be carried over from the signed packet)"""
+    ex = Expansion(schema)
+    for i, r in enumerate(schema['rules']):
+        own = set()
+        for ch in ex.def_chains(i):
+            own |= {it[1] for it in ch[0] if it[0] == 'n'}
+        for cs in r['cons']:
+            for _p, opts in cs:
+                for o in opts:
+                    if o[0] == 'pat' and o[1] not in own:
+                        return True
+                    if o[0] == 'fn' and any(a[0] == 'pat' and a[1] not in own for a in o[2]):
+                        return True
+    return False
+
+
+def run_guarded(fn, recursion_margin=120, seconds=10):
+    """run fn() untraced, with the recursion limit lowered to (current depth + margin) so that unbounded recursion
+    ends quickly, and a SIGALRM hang guard (main thread only); -> ('ok', v) | ('exc', e) | ('hang', None)."""
+    import signal
+    import threading
+    depth = 0
+    f = sys._getframe()
+    while f is not None:
+        depth += 1
+        f = f.f_back
+    old_limit = sys.getrecursionlimit()
+    use_alarm = threading.current_thread() is threading.main_thread() and hasattr(signal, 'SIGALRM')
+
+    class _Hang(BaseException):
+        pass
+
+    def on_alarm(signum, frame):
+        raise _Hang()
+    if use_alarm:
+        old_handler = signal.signal(signal.SIGALRM, on_alarm)
+        signal.setitimer(signal.ITIMER_REAL, seconds)
+    sys.setrecursionlimit(depth + recursion_margin)
+    try:
+        try:
+            return 'ok', fn()
+        finally:
+            sys.setrecursionlimit(old_limit)
+            if use_alarm:
+                signal.setitimer(signal.ITIMER_REAL, 0)
+                signal.signal(signal.SIGALRM, old_handler)
+    except _Hang:
+        return 'hang', None
+    except RecursionError as e:
+        return 'exc', e
+    except Exception as e:      # noqa
+        return 'exc', e
+
+
+# ---------------------------------------------------------------------------------------------------------------
+# speed: compile_lvs() builds a fresh lark.Lark (LALR table construction, ~25 ms) on every call.  The third-party
+# parser generator is not under test, so the harnesses let the REAL compile_lvs reuse one Lark object per grammar
+# text (the library's own grammar, transformer class and compiler code stay untouched).
+# ---------------------------------------------------------------------------------------------------------------
+
+def cache_lark():
+    import ndn.app_support.light_versec.compiler as comp
+    real = comp.lark
+    if getattr(real, '_c_cached', False):
+        return
+    cache = {}
+
+    class _LarkProxy:
+        _c_cached = True
+
+        def __getattr__(self, name):
+            return getattr(real, name)
+
+        @staticmethod
+        def Lark(grammar, **kw):   # noqa
+            tr = kw.get('transformer')
+            key = (grammar, kw.get('parser'), type(tr))
+            if key not in cache:
+                cache[key] = real.Lark(grammar, **kw)
+            return cache[key]
+    comp.lark = _LarkProxy()
+
+
+def static_errors(schema) -> list[str]:
+    """the static errors named in the C13 statement, decided on the abstract schema (independent of the library)"""
+    errs = []
+    rules = schema['rules']
+    defined = {r['id'] for r in rules if not is_temp(r['id'])}
+    present = patterns_in_names(schema)
+    g = {}
+    for r in rules:
+        own_temps = {it[1] for it in r['items'] if it[0] == 'pat' and it[1].startswith('_')}
+        for it in r['items']:
+            if it[0] == 'ref':
+                if is_temp(it[1]):
+                    errs.append('temporary-rule-in-name')
+                elif it[1] not in defined:
+                    errs.append('undefined-rule-in-name')
+                g.setdefault(r['id'], set()).add(it[1])
+        for sg in r['signers']:
+            if is_temp(sg):
+                errs.append('temporary-rule-as-signer')
+            elif sg not in defined:
+                errs.append('undefined-signer')
+        for cs in r['cons']:
+            for pat, opts in cs:
+                if pat.startswith('_'):
+                    if pat not in own_temps:
+                        errs.append('constraint-on-pattern-nowhere')
+                elif pat not in present:
+                    errs.append('constraint-on-pattern-nowhere')
+                for o in opts:
+                    vals = [o] if o[0] == 'pat' else ([a for a in o[2] if a[0] == 'pat'] if o[0] == 'fn' else [])
+                    for v in vals:
+                        if v[1].startswith('_'):
+                            errs.append('temporary-pattern-as-value')
+                        elif v[1] not in present:
+                            errs.append('pattern-nowhere')
+    if has_cycle(g):
+        errs.append('cyclic-reference')
+    if rule_sign_cycle(schema):
+        errs.append('cyclic-signing')
+    return errs
